@@ -48,6 +48,9 @@ ANGLES = '''
 ANGLES2 = '''
      Make the three changes come from three different angles: (D) a library call used slightly wrongly - a changed keyword argument, flag, default, mode or an "equivalent" function of the standard library / numpy / pandas / networkx / filelock / json that behaves differently in some case; (E) a confusion of kinds - str vs Path, list vs one-shot iterator, None vs empty container vs missing key, class vs instance, a name with vs without namespace / group / extension, bytes vs text; (F) a boundary - code that is right for the common case and wrong for the empty, single-element, duplicate, equal-named, zero, first or last case.'''
 
+DISGUISED = '''
+     Disguise each change: embed it in a plausible, otherwise behaviour-preserving refactoring of the surrounding function(s) - renamed locals, an extracted private helper, restructured conditionals (early returns, a flag, merged or split tests), a comprehension turned into a loop or back, f-strings turned into str.format - so that the diff is 15 to 50 lines and the faulty part is not obvious from the diff. Apart from the one fault, the refactoring must keep the behaviour exactly. The three faults themselves must be of three different kinds.'''
+
 AVOID = '''
      At most ONE of the three changes may consist of adding a cache / memo / stored flag; the others must be of a different kind (conditions, ordering of statements, arguments passed, names / keys / paths computed, error handling, iteration, copying vs aliasing, locking, what is written where).'''
 
@@ -81,7 +84,7 @@ def main():
     kind, ids, wt = sys.argv[1], sys.argv[2].split(','), sys.argv[3]
     if kind == 'seeded':
         p = PROPS[ids[0]]
-        print(SEEDED.format(wt=wt, prop=json.dumps(p, indent=1), pid=ids[0], extra=(AVOID if '--avoid-caches' in sys.argv else '') + (DIVERSE if '--diverse' in sys.argv else '') + (ANGLES if '--angles' in sys.argv else '') + (ANGLES2 if '--angles2' in sys.argv else '')))
+        print(SEEDED.format(wt=wt, prop=json.dumps(p, indent=1), pid=ids[0], extra=(AVOID if '--avoid-caches' in sys.argv else '') + (DIVERSE if '--diverse' in sys.argv else '') + (ANGLES if '--angles' in sys.argv else '') + (ANGLES2 if '--angles2' in sys.argv else '') + (DISGUISED if '--disguised' in sys.argv else '')))
     else:
         recs = []
         for i in ids:
